@@ -390,6 +390,10 @@ CORPUS["C19"] = [
 ]
 
 CORPUS["C20"] = [
+    M("frequency sum runs over the events", (ANT, "    V_sigsum = np.sum(V_sig, axis=1)", "    V_sigsum = np.sum(V_sig.T, axis=1)")),
+    M("square field arrays are transposed", (ANT, "    V_sig = Nants * voltage_from_field(Efield, freqs, gain)", "    if Efield.shape[0] == freqs.size:\n        Efield = np.swapaxes(Efield, 0, 1)\n    V_sig = Nants * voltage_from_field(Efield, freqs, gain)")),
+    B("frequency sum over the first axis of the transposed voltages", (ANT, "    V_sigsum = np.sum(V_sig, axis=1)", "    V_sigsum = np.sum(V_sig.T, axis=0)")),
+    B("energy scaling with an added axis instead of two transposes", (RADIO, "EFields[mask] = (EFields[mask].T * showerEnergy[mask] / 10.0).T", "EFields[mask] = EFields[mask] * showerEnergy[mask][:, None] / 10.0")),
     M("signal scales with sqrt(Nants)", (ANT, "    V_sig = Nants * voltage_from_field(Efield, freqs, gain)", "    V_sig = np.sqrt(Nants) * voltage_from_field(Efield, freqs, gain)")),
     M("field quadratic in the shower energy", (RADIO, "EFields[mask] = (EFields[mask].T * showerEnergy[mask] / 10.0).T", "EFields[mask] = (EFields[mask].T * showerEnergy[mask] ** 2 / 10.0).T")),
     M("energy scaling applied twice", (RADIO, "        distScale = np.abs(zhairesDist / nssDist)", "        distScale = np.abs(zhairesDist / nssDist) * showerEnergy[mask]")),
